@@ -5,6 +5,9 @@ use crate::out::*;
 use serde_json::Value;
 
 pub mod c04;
+pub mod c12;
+pub mod c13;
+pub mod c14;
 
 pub trait Prop {
     fn id(&self) -> &'static str;
@@ -49,7 +52,7 @@ pub trait Prop {
 }
 
 pub fn all() -> Vec<Box<dyn Prop>> {
-    vec![Box::new(c04::C04)]
+    vec![Box::new(c04::C04), Box::new(c12::C12), Box::new(c13::C13), Box::new(c14::C14)]
 }
 
 pub fn by_id(id: &str) -> Option<Box<dyn Prop>> {
